@@ -249,7 +249,7 @@ def emit_euml(z: Zoo):
 
 
 def emit(z: Zoo) -> str:
-    pre = E.PRELUDE % {'name': z.name + ' [' + z.frontend + ']'}
+    pre = E.PRELUDE % {'name': z.name + ' [' + z.frontend + ']', 'defs': ''}
     if z.frontend in ('basic', 'basic2'):
         return pre + E.emit_events(z) + emit_basic(z, two=(z.frontend == 'basic2')) + '\n' + E.emit_driver(z) + '\n'
     if z.frontend == 'puml':
